@@ -3,7 +3,7 @@
    the executable statement [expected_sizes]; the collectors are shown to follow it. *)
 From Coq Require Import ZArith NArith List Bool Lia Arith.
 From FV.Model Require Import Bytes Bson Metrics Codec Collector Wf RoundTrip CollectorOk.
-From FV.Proofs Require Import BytesProofs BsonProofs MetricsProofs CodecChunk CodecProofs CollectorHyps CollectorBase
+From FV.Proofs Require Import BytesProofs BsonProofs MetricsProofs CodecChunk CodecProofs CollectorBase
   CollectorKinds CollectorInv CollectorLog.
 Import ListNotations.
 Open Scope Z_scope.
